@@ -1,1 +1,33 @@
-From WT Require Import Base.Wrap.
+(** * C10 — sum is the slot-wise NaN-skipping sum of the matched files. *)
+From WT Require Import Base.Wrap Base.ListX Model.Time Model.Ring Model.Update Model.Handle Model.Cmd Proofs.CmdProofs.
+
+(** for every float-operation record: the j-th summed value is the left fold of Value.Add over
+    the j-th values of the files in glob order *)
+Theorem C10_slotwise F d first rest j :
+  Forall (fun s => length (s_vals s) = length (s_vals first)) rest -> (j < length (s_vals first))%nat ->
+  nth j (s_vals (sum_series F first rest)) d =
+  fold_left (vadd F) (map (fun s => nth j (s_vals s) d) rest) (nth j (s_vals first) d).
+Proof. exact (sum_series_slotwise F d first rest j). Qed.
+Print Assumptions C10_slotwise.
+
+(** Value.Add skips holes: the fold is the float sum of the values present (unless that float sum
+    itself overflows to NaN, e.g. +Inf + -Inf), and it is NaN when no file has a value *)
+Theorem C10_sum_of_present F vs init : is_nan init = false ->
+  fold_left (vadd F) vs init = fold_left (f_add F) (present vs) init \/
+  exists k, is_nan (fold_left (f_add F) (firstn k (present vs)) init) = true.
+Proof. exact (fold_vadd_present F vs init). Qed.
+Print Assumptions C10_sum_of_present.
+Theorem C10_nan_when_none F vs init : is_nan init = true -> Forall (fun v => is_nan v = true) vs ->
+  is_nan (fold_left (vadd F) vs init) = true.
+Proof. exact (fold_vadd_all_nan F vs init). Qed.
+Print Assumptions C10_nan_when_none.
+
+(** window and step are those of the files; a single file sums to itself *)
+Theorem C10_window_step F first rest :
+  s_from (sum_series F first rest) = s_from first /\ s_until (sum_series F first rest) = s_until first /\
+  s_step (sum_series F first rest) = s_step first.
+Proof. exact (sum_series_window F first rest). Qed.
+Print Assumptions C10_window_step.
+Theorem C10_single_is_identity F s : sum_series F s [] = s.
+Proof. exact (sum_series_single F s). Qed.
+Print Assumptions C10_single_is_identity.
